@@ -176,6 +176,11 @@ def gen_canon(t):
             L.append(f"    ok")
     elif k == "table":
         nf = len(tt["fields"])
+        if nf == 0:
+            L.append("    s.len() == 4 && u32_at(s, 0) == 4")
+            L.append("}")
+            out.append("\n".join(L))
+            return
         L.append(f"    if s.len() < {4 + 4 * nf} || u32_at(s, 0) != s.len() {{ return false; }}")
         L.append(f"    if r.field_count() != {nf} || u32_at(s, 4) != {4 * (nf + 1)} {{ return false; }}")
         L.append(f"    let mut ok = true;")
